@@ -130,7 +130,7 @@ pub fn run(ctx: &mut Ctx) {
         ctx.check("-:radix-family:neg", &json!({"-": [format!("-{}", x.as_str().unwrap())]}), &null);
     }
     // white-space blocks (see cmp): as arithmetic operands
-    for x in al::ws_block_strings() {
+    for x in al::ws_block_strings().into_iter().chain(al::mutated_literals()) {
         if !ctx.mine() {
             continue;
         }
@@ -314,4 +314,5 @@ pub fn run(ctx: &mut Ctx) {
     crate::spaces::render_probes(ctx, &OPS);
     crate::spaces::width_probes(ctx);
     crate::spaces::type_grid_probes(ctx, &OPS);
+    crate::spaces::depth_probes(ctx);
 }
